@@ -122,6 +122,8 @@ pub fn extras() -> Vec<&'static str> {
         // cogeneration units that burn fuel in steps in which they deliver no electricity (stand-by, heat-led operation), two fuels, exporting
         "0,CONSUMO,ILU,ELECTRICIDAD,10,10,10,10\n1,CONSUMO,COGEN,GASNATURAL,40,15,40,0\n1,PRODUCCION,EL_COGEN,20,0,20,0\n1,CONSUMO,COGEN,BIOMASA,10,0,10,5\n2,CONSUMO,CAL,GASNATURAL,30,30,30,30",
         "0,CONSUMO,ILU,ELECTRICIDAD,2,2,2\n1,CONSUMO,COGEN,GASOLEO,30,9,0\n1,PRODUCCION,EL_COGEN,10,0,0\n3,PRODUCCION,EL_INSITU,0,1,5\n0,CONSUMO,NEPB,ELECTRICIDAD,1,1,1",
+        // declared ambient production a few Wh short of the use (the missing part is added whatever its size)
+        "1,CONSUMO,CAL,EAMBIENTE,0.019,0,0.05\n1,PRODUCCION,EAMBIENTE,0.012,0,0.05\n2,CONSUMO,ILU,ELECTRICIDAD,1,1,1",
         // auxiliary energy as the only electricity component; a step with very little on-site production next to a large one
         "1,CONSUMO,CAL,GASNATURAL,190,150,100\n1,AUX,20,15,10",
         "CONSUMO,ILU,ELECTRICIDAD,5000,5000,5000\nPRODUCCION,EL_INSITU,20000,15,0",
